@@ -358,4 +358,13 @@ SEGMENTS = {
         ],
         file="src/dev/cache.rs",
     ),
+    # ---- the formatter's initial refcounts
+    "F2": dict(
+        file="src/meta/header.rs", fn="format_qcow2", parent="src/meta/header.rs",
+        start=r"let start = rc_table\.0 as usize;", end=r"let buf_start = buf\.as_mut_ptr",
+        sig="pub(crate) fn seg_f2(&self, cluster_bits: usize, refcount_order: u8, rc_table: (u64, u32), rc_blk: (u64, u32), l1_table: (u64, u32)) -> Qcow2Result<(RefTable, RefBlock)>",
+        pre="        let cluster_size = 1usize << cluster_bits;",
+        forbid=[],
+        post="        Ok((rc_t, ref_b))",
+    ),
 }
